@@ -508,6 +508,7 @@ class Function(object):
 
         """
         self.list_of_class_constraints = list()
+        self.list_of_class_psd = list()
         self.add_class_constraints()
 
     def add_class_constraints(self):
